@@ -431,6 +431,46 @@ class UnitResult:
         self.degraded = []
 
 
+# CBMC 6.11's C++ front end silently mis-parses '(identifier) + e' / '(identifier) - e' as a CAST of the unary expression '+e' / '-e' to the
+# "type" identifier when the parenthesised identifier stands where the grammar expects a cast-expression (after * / % ! unary/binary -):
+# '6 * (i) + 3' is compiled as 6 * 3.  Probe: /verif/tools/probe_cast_hazard.sh.  '((i))' is parsed correctly, so every '(identifier)' that is
+# followed by + - & * and is not an argument list (not preceded by an identifier, ')' or ']') is rewritten to '((identifier))' — a
+# semantics-preserving change also inside macro bodies — and the PREPROCESSED text is scanned afterwards: any remaining occurrence makes the
+# unit undecided instead of trusting the parse.
+_CAST_TYPES = {"int", "double", "float", "long", "short", "char", "unsigned", "signed", "bool", "void", "size_t", "Id"}
+_CAST_HAZ = re.compile(r"(\w+|[\)\]])?(\s*)\(\s*([A-Za-z_]\w*)\s*\)(?=\s*[-+&*])")
+_CAST_KEEP = ("return", "else", "case", "throw", "if", "while", "for", "switch")
+
+
+def cast_hazard_normalise(text):
+    n = [0]
+
+    def rep(m):
+        prev, sp, ident = m.group(1), m.group(2), m.group(3)
+        if ident in _CAST_TYPES:
+            return m.group(0)
+        if prev is not None and prev not in _CAST_KEEP and prev not in (")", "]"):
+            return m.group(0)          # argument list of a call or of a function-like macro: not an operand position
+        n[0] += 1
+        return "%s%s((%s))" % (prev or "", sp, ident)
+    return _CAST_HAZ.sub(rep, text), n[0]
+
+
+def cast_hazard_scan(src, unit):
+    rc, out, dt = run(["g++", "-E", "-P", "-x", "c++", "-nostdinc", "-DVF_CBMC", "-I", os.path.join(VERIF, "stubs"), src], 120)
+    if rc != 0:
+        raise Undecided("preprocessing %s for the cast-hazard scan failed: %s" % (unit.name, out[-1500:]))
+    flat = re.sub(r"\(\s*\(\s*([A-Za-z_]\w*)\s*\)\s*\)", r" \1 ", out)        # '((x))' is parsed correctly
+    for m in _CAST_HAZ.finditer(flat):
+        prev, ident = m.group(1), m.group(3)
+        if ident in _CAST_TYPES:
+            continue
+        if prev is not None and prev not in _CAST_KEEP and prev not in (")", "]"):
+            continue
+        ctx = flat[max(0, m.start() - 50):m.end() + 25].replace("\n", " ")
+        raise Undecided("C++ front-end cast hazard '(%s) <op>' left after normalisation in %s near: %s" % (ident, unit.name, ctx))
+
+
 def build_and_check(unit, tier, workdir, mutate=None, want_trace=True, tag="main"):
     """Generate TU, compile, instrument, run back-end portfolio.  Returns dict."""
     d = os.path.join(workdir, re.sub(r"\W", "_", unit.name) + "_" + tag)
@@ -438,7 +478,12 @@ def build_and_check(unit, tier, workdir, mutate=None, want_trace=True, tag="main
     tu, infos = unit.gen_tu(tier, mutate)
     ext = ".c" if unit.mode == "c" else ".cpp"
     src = os.path.join(d, "tu" + ext)
+    ncast = 0
+    if unit.mode == "cpp":
+        tu, ncast = cast_hazard_normalise(tu)
     open(src, "w").write(tu)
+    if unit.mode == "cpp":
+        cast_hazard_scan(src, unit)
     for fn, content in unit.extra_files:
         open(os.path.join(d, fn), "w").write(content)
     res = {"infos": infos, "dir": d, "src": src, "cmds": []}
@@ -941,8 +986,9 @@ def write_evidence(prop_id, tier, seed, results, meta, wall, nviol, known):
     all_ok = all(unit_ok(R) for R in results)
     any_bounded = [R.unit for R in results if R.unit.bounded]
     level = meta.get("level", "proof")
-    if level == "proof" and (not all_ok or discharged != obligations):
-        level = "other"
+    degraded_any = any(getattr(R, "degraded", None) for R in results)
+    if level == "proof" and (not all_ok or discharged != obligations or any_bounded or degraded_any):
+        level = "other"      # bounded stand-ins are never counted as proved
     per_backend = {}
     for R in results:
         for be, s in R.seconds.items():
